@@ -175,8 +175,8 @@ pub fn gen(id: &str, tier: &str, rng: &mut Rng, emit: &mut dyn FnMut(Op)) {
                 cur = next;
             }
         }
-        "C14" => gen_c14(tier, rng, emit),
-        "C15" => gen_c15(tier, rng, emit),
+        "C14" => with_oracle_fuzz(tier, rng, emit, &gen_c14),
+        "C15" => with_oracle_fuzz(tier, rng, emit, &gen_c15),
         _ => {
             eprintln!("plist: unknown property {}", id);
             std::process::exit(2);
